@@ -57,7 +57,7 @@ SLOW = 0.30       # a slow observation socket answers after this many seconds
 #   GR:<m>  complete GET, then the client RESETS while the reply is pending: the observation
 #           socket holds its answer <m> until the reset has been delivered, so write_all fails -
 #           on the 200 path (<m> = valid) or on the 500 path (<m> = early / invalid)
-SYMBOLS = (["G:" + m for m in OBS_MODES] + ["S:valid", "S:refused", "GB:valid", "P",
+SYMBOLS = (["G:" + m for m in OBS_MODES] + ["S:valid", "S:refused", "T:valid", "GB:valid", "P",
            "C0", "Cn", "H0", "Hn", "O3", "O2", "OB", "R2",
            "GR:valid", "GR:early", "GR:invalid", "GS:valid", "GS:early"])
 
@@ -110,6 +110,9 @@ def model_item(sym):
         return conn_term([GET], None, sym == "GR:valid", False, True)
     if sym.startswith("S:"):
         return conn_term([GET[:3], GET[3:30], GET[30:]], None, sym == "S:valid", True, False)
+    if sym.startswith("T:"):
+        # the request arrives in two segments, cut in the middle of the \r\n\r\n terminator
+        return conn_term([GET[:-2], GET[-2:]], None, True, True, False)
     if sym.startswith("GB:"):
         return conn_term([GET_2048], None, True, True, False)
     return {
@@ -180,8 +183,8 @@ def play(exp, sym):
         if kind in ("G", "GS", "GB") or sym == "P":
             s.sendall(GET_2048 if kind == "GB" else POST if sym == "P" else GET)
             return outcome_term(await_reaction(exp, s, REACT + (SLOW if kind == "GS" else 0.0)))
-        if sym.startswith("S:"):
-            for part in (GET[:3], GET[3:30], GET[30:]):
+        if sym.startswith("S:") or sym.startswith("T:"):
+            for part in ((GET[:3], GET[3:30], GET[30:]) if sym.startswith("S:") else (GET[:-2], GET[-2:])):
                 s.sendall(part)
                 time.sleep(0.02)
             return outcome_term(await_reaction(exp, s))
